@@ -41,7 +41,7 @@ def gen_cases(rng, n):
             a_, b_ = sorted(rng.sample(range(0, 1001), 2))
             t1, t2 = Fr(a_, 1000), Fr(b_, 1000)
         else:
-            a_ = rng.randint(0, 998)
+            a_ = rng.randint(0, 994)     # the sub-span stays inside the bar: parameters beyond 1 are clamped by TParam
             t1, t2 = Fr(a_, 1000), Fr(a_, 1000) + Fr(rng.choice([1, 2, 5]), 1000)
         E = Fr(rng.choice(["1", "210000", "21000000", "2.1e11", "0.5", "3e-3"]))
         A = Fr(rng.choice(["1", "10.3", "0.00103", "250", "1e-4", "14000"]))
@@ -205,7 +205,9 @@ def run(ctx):
         if mism:
             s0, m = mism[0]
             import re as _re
-            k = int(_re.search(r"\((\d+),", m).group(1)) + s0
+            mm = _re.search(r"\((\d+)(?:%nat)?,", m)
+            k = (int(mm.group(1)) if mm else 0) + s0
+            k = min(k, len(usable) - 1)
             c, o = usable[k]
             if concrete == 0:
                 ctx.violation("translated kernel stiff_gen and Element.StiffnessGlobalMat disagree (translator tie): " + m[:300],
